@@ -300,14 +300,14 @@ pub fn core_sentences() -> Vec<&'static str> {
 
 fn sweep_sentences(cyc: &Cycle, rec: &Recorder, thorough: bool) -> Tally {
     let names: Vec<&str> = vec!["ABC", "abcdefg", "<+03>", "<-0330>", "<A1+b->", "AB", "ABCDEFGH", "<ab>", "<a_b>", "<abc"];
-    let offsets: Vec<&str> = vec!["0", "5", "+5", "-5", "05", "005", "5:30", "-0:30", "5:30:15", "24", "24:59:59", "25", "5:60", "5:0:60", "-", "", "5:30:15:", "5:", "5:30:", "18446744073709551616", "18446744073709551621", "4294967301", "5:4294967326"];
+    let offsets: Vec<&str> = vec!["0", "5", "+5", "-5", "05", "005", "5:30", "-0:30", "5:30:15", "24", "24:59:59", "25", "5:60", "5:0:60", "-", "", "5:30:15:", "5:", "5:30:", "18446744073709551616", "18446744073709551621", "4294967301", "5:4294967326", "5:00:00:00", "5:00:00:30", "5:0:0:0:0", "340282366920938463463374607431768211461", "5:340282366920938463463374607431768211486"];
     let dst_names: Vec<&str> = vec!["BBB", "<+04>", "BB", ""];
-    let dst_offsets: Vec<&str> = vec!["", "4", "-4:30", "24:59:59", "25", "+", "4:60", "4:00:60", "4:00:00:", "18446744073709551620"];
+    let dst_offsets: Vec<&str> = vec!["", "4", "-4:30", "24:59:59", "25", "+", "4:60", "4:00:60", "4:00:00:", "18446744073709551620", "4:00:00:00", "4:00:00:30"];
     let days: Vec<&str> = vec!["J1", "J59", "J60", "J365", "J0", "J366", "0", "59", "365", "366", "M1.1.0", "M12.5.6", "M13.1.0", "M1.0.0", "M1.6.0", "M1.1.7", "M1.1",
         // numbers that are valid only modulo 2^8, 2^16 or 2^32
-        "M259.2.0", "M3.258.0", "M3.2.256", "J65537", "65537", "J65896", "M4294967299.2.0", "J4294967297", "M18446744073709551619.2.0", "J18446744073709551617", "18446744073709551616",
+        "M259.2.0", "M3.258.0", "M3.2.256", "J65537", "65537", "J65896", "M4294967299.2.0", "J4294967297", "M18446744073709551619.2.0", "J18446744073709551617", "18446744073709551616", "M340282366920938463463374607431768211459.2.0",
         "J340282366920938463463374607431768211457"];
-    let times: Vec<&str> = vec!["", "/2", "/0", "/24", "/24:59:59", "/25", "/-1", "/+2", "/167", "/-167:59:59", "/168", "/2:60", "/1:02:03", "/1:02:03:", "/1:02:", "/2:00:60", "/2:59:59", "/-2:00:60", "/24:00:01", "/-0:30", "/-0:00:01", "/+0:30", "/-00:30:00", "/-0", "/596523", "/596524", "/-596524", "/1193047", "/2147483647"];
+    let times: Vec<&str> = vec!["", "/2", "/0", "/24", "/24:59:59", "/25", "/-1", "/+2", "/167", "/-167:59:59", "/168", "/2:60", "/1:02:03", "/1:02:03:", "/1:02:", "/2:00:60", "/2:59:59", "/-2:00:60", "/24:00:01", "/-0:30", "/-0:00:01", "/+0:30", "/-00:30:00", "/-0", "/596523", "/596524", "/-596524", "/1193047", "/2147483647", "/2:00:00:00", "/2:00:00:30", "/2:00:00:00:00", "/2:00:00:60", "/340282366920938463463374607431768211458"];
     let trailing: Vec<&str> = vec!["", ",", " ", "x"];
     let modes = [Mode::Settings, Mode::FooterV2, Mode::FooterV3, Mode::FooterV2After3, Mode::FooterV3After2];
     // (a) prefix product x small rule set
